@@ -377,6 +377,17 @@ func (r *Runner) do(o Op) (out Out) {
 	case "ReadFile":
 		b, err := f.ReadFile(o.P)
 		return ev(err, fmt.Sprintf("%q", b))
+	case "SetUMask":
+		// (not part of the kernel-differential interface)
+		if u, ok := f.(interface{ SetUMask(mask fs.FileMode) error }); ok {
+			return e(u.SetUMask(perm))
+		}
+		return Out{Err: "unsupported"}
+	case "UMask":
+		if u, ok := f.(interface{ UMask() fs.FileMode }); ok {
+			return Out{Err: "ok", Val: fmt.Sprintf("%04o", u.UMask())}
+		}
+		return Out{Err: "unsupported"}
 	case "CreateTemp":
 		fh, err := f.CreateTemp(o.P, o.P2)
 		r.Handles[o.H] = fh
@@ -522,20 +533,20 @@ func (r *Runner) do(o Op) (out Out) {
 	case "FRead":
 		b := make([]byte, o.N)
 		n, err := h.Read(b)
-		return Out{Err: ErrKind(err), Val: fmt.Sprintf("%d %q", n, b[:max(n, 0)])}
+		return Out{Err: ErrKind(err), EPath: ErrPaths(err), Val: fmt.Sprintf("%d %q", n, b[:max(n, 0)])}
 	case "FReadAt":
 		b := make([]byte, o.N)
 		n, err := h.ReadAt(b, o.Off)
-		return Out{Err: ErrKind(err), Val: fmt.Sprintf("%d %q", n, b[:max(n, 0)])}
+		return Out{Err: ErrKind(err), EPath: ErrPaths(err), Val: fmt.Sprintf("%d %q", n, b[:max(n, 0)])}
 	case "FWrite":
 		n, err := h.Write([]byte(o.Data))
-		return Out{Err: ErrKind(err), Val: fmt.Sprint(n)}
+		return Out{Err: ErrKind(err), EPath: ErrPaths(err), Val: fmt.Sprint(n)}
 	case "FWriteString":
 		n, err := h.WriteString(o.Data)
-		return Out{Err: ErrKind(err), Val: fmt.Sprint(n)}
+		return Out{Err: ErrKind(err), EPath: ErrPaths(err), Val: fmt.Sprint(n)}
 	case "FWriteAt":
 		n, err := h.WriteAt([]byte(o.Data), o.Off)
-		return Out{Err: ErrKind(err), Val: fmt.Sprint(n)}
+		return Out{Err: ErrKind(err), EPath: ErrPaths(err), Val: fmt.Sprint(n)}
 	case "FSeek":
 		n, err := h.Seek(o.Off, o.Whence)
 		return ev(err, fmt.Sprint(n))
@@ -577,18 +588,18 @@ func (r *Runner) do(o Op) (out Out) {
 		ents, err := h.ReadDir(o.N)
 		if o.N > 0 || r.partial[o.H] {
 			r.markPartial(o.H, o.N > 0)
-			return Out{Err: ErrKind(err), Val: fmt.Sprintf("len=%d", len(ents))}
+			return Out{Err: ErrKind(err), EPath: ErrPaths(err), Val: fmt.Sprintf("len=%d", len(ents))}
 		}
 		sort.Slice(ents, func(i, j int) bool { return ents[i].Name() < ents[j].Name() })
-		return Out{Err: ErrKind(err), Val: entriesString(ents)}
+		return Out{Err: ErrKind(err), EPath: ErrPaths(err), Val: entriesString(ents)}
 	case "FReaddirnames":
 		names, err := h.Readdirnames(o.N)
 		if o.N > 0 || r.partial[o.H] {
 			r.markPartial(o.H, o.N > 0)
-			return Out{Err: ErrKind(err), Val: fmt.Sprintf("len=%d", len(names))}
+			return Out{Err: ErrKind(err), EPath: ErrPaths(err), Val: fmt.Sprintf("len=%d", len(names))}
 		}
 		sort.Strings(names)
-		return Out{Err: ErrKind(err), Val: fmt.Sprintf("%q", names)}
+		return Out{Err: ErrKind(err), EPath: ErrPaths(err), Val: fmt.Sprintf("%q", names)}
 	case "FReadDirAll", "FReaddirnamesAll":
 		// protocol check: batches of at most N until io.EOF, every entry exactly once
 		seen := map[string]int{}
@@ -619,7 +630,7 @@ func (r *Runner) do(o Op) (out Out) {
 				if err == io.EOF && len(names) == 0 {
 					break
 				}
-				return Out{Err: ErrKind(err), Val: fmt.Sprintf("after %d entries", len(all))}
+				return Out{Err: ErrKind(err), EPath: ErrPaths(err), Val: fmt.Sprintf("after %d entries", len(all))}
 			}
 			if len(names) == 0 {
 				return Out{Err: "protocol", Val: "empty batch without error"}
